@@ -107,6 +107,133 @@ func measure(f *fox.Router, w http.ResponseWriter, r *http.Request) uint64 {
 	return (best + runs - 1) / runs
 }
 
+// ---------- interleaved workloads ----------
+
+// A helper is one call of a read-only API of the router. They borrow contexts from the same per-tree
+// pool as ServeHTTP (or only read the tree), so what they leave in a pooled context is what the next
+// served request starts from.
+type helper struct {
+	name string
+	call func()
+}
+
+var sink int
+
+func helpersFor(f *fox.Router, w http.ResponseWriter, method, host, path, pattern string, req *http.Request) []helper {
+	_, tc := fox.NewTestContext(w, req)
+	lw := tc.Writer()
+	one := func(yield func(string) bool) { yield(method) }
+	return []helper{
+		{"Has", func() {
+			if f.Has(method, pattern) {
+				sink++
+			}
+		}},
+		{"Route", func() {
+			if f.Route(method, pattern) != nil {
+				sink++
+			}
+		}},
+		{"Reverse", func() {
+			if r, _ := f.Reverse(method, host, path); r != nil {
+				sink++
+			}
+		}},
+		{"Lookup+Close", func() {
+			r, cc, _ := f.Lookup(lw, req)
+			if r != nil {
+				sink++
+			}
+			if cc != nil {
+				cc.Close()
+			}
+		}},
+		{"Len", func() { sink += f.Len() }},
+		{"Iter.Routes", func() {
+			for range f.Iter().Routes(one, pattern) {
+				sink++
+			}
+		}},
+		{"Iter.Reverse", func() {
+			for range f.Iter().Reverse(one, host, path) {
+				sink++
+			}
+		}},
+		{"Iter.All(first)", func() {
+			for range f.Iter().All() {
+				sink++
+				break
+			}
+		}},
+		{"Txn.Has", func() {
+			txn := f.Txn(false)
+			if txn.Has(method, pattern) {
+				sink++
+			}
+			txn.Abort()
+		}},
+		{"Txn.Route", func() {
+			txn := f.Txn(false)
+			if txn.Route(method, pattern) != nil {
+				sink++
+			}
+			txn.Abort()
+		}},
+		{"Txn.Reverse", func() {
+			txn := f.Txn(false)
+			if r, _ := txn.Reverse(method, host, path); r != nil {
+				sink++
+			}
+			txn.Abort()
+		}},
+	}
+}
+
+// mallocsOver counts heap allocations of `runs` calls of body, minimum over 3 tries.
+func mallocsOver(body func()) uint64 {
+	best := ^uint64(0)
+	for try := 0; try < 3; try++ {
+		runtime.ReadMemStats(&m0)
+		for i := 0; i < runs; i++ {
+			body()
+		}
+		runtime.ReadMemStats(&m1)
+		if d := m1.Mallocs - m0.Mallocs; d < best {
+			best = d
+		}
+	}
+	return best
+}
+
+// interleaved measures the served request's share of the loop body [helper; ServeHTTP]: allocations of the
+// pair minus the allocations of the helper called alone (both after warm-up), per call, rounded up.
+// grew: a pooled buffer changed capacity during the measured pair loop (after the pair's own warm-up; the helper's
+// lookup may legitimately need more room than the request's, e.g. Has looks up the pattern text itself).
+func interleaved(f *fox.Router, w http.ResponseWriter, r *http.Request, h helper) (share, pair, alone uint64, grew bool) {
+	for i := 0; i < warmup; i++ {
+		h.call()
+	}
+	alone = mallocsOver(h.call)
+	both := func() {
+		h.call()
+		f.ServeHTTP(w, r)
+	}
+	for i := 0; i < warmup; i++ {
+		both()
+	}
+	bp, bt, bs := f.VerifCtxCaps(12)
+	for i := 0; i < warmup; i++ { // VerifCtxCaps may have put fresh contexts on top of the pool
+		both()
+	}
+	pair = mallocsOver(both)
+	ap, at, as := f.VerifCtxCaps(12)
+	grew = ap > bp || at > bt || as > bs
+	if pair > alone {
+		share = (pair - alone + runs - 1) / runs
+	}
+	return
+}
+
 // ---------- route-set generators ----------
 
 var segs = []string{"a", "b", "c", "ab", "abc"}
@@ -373,6 +500,7 @@ func main() {
 			}
 			matched := hits == warmup && !panicked
 			var allocs uint64
+			inter := ""
 			warmGrow := false
 			if matched {
 				bp, bt, bs := fw.VerifCtxCaps(12)
@@ -382,6 +510,31 @@ func main() {
 				allocs = measure(fw, w, req)
 				ap, at, as := fw.VerifCtxCaps(12)
 				warmGrow = ap > bp || at > bt || as > bs
+				// interleaved workload: [one read-only API call; the request]; the request's share must stay 0
+				hs := helpersFor(fw, w, method, host, path, lastPat, req)
+				pick := hs[rnd.Intn(len(hs)):]
+				if kind == "fixed" {
+					pick = hs // the fixed witnesses go through every helper
+				} else {
+					pick = pick[:1]
+				}
+				for _, h := range pick {
+					share, pair, alone, grew := interleaved(fw, w, req, h)
+					warmGrow = warmGrow || grew
+					st.Count("interleaved:" + h.name)
+					if share > 0 {
+						st.Count("interleaved-allocating:" + h.name)
+						if inter == "" {
+							inter = fmt.Sprintf(" interleaved[%s; request]x%d: pair=%d helper-alone=%d => request share %d/op", h.name, runs, pair, alone, share)
+						}
+					}
+					if share > allocs {
+						allocs = share
+					}
+				}
+				if inter == "" {
+					inter = fmt.Sprintf(" interleaved with %d read-only helper(s): request share 0", len(pick))
+				}
 			}
 			pat := ""
 			if matched {
@@ -391,8 +544,8 @@ func main() {
 				"a_match := %s; a_tsr := %s; a_pattern := %s; a_cold := (%s, %s, %s); a_warm := %s; a_allocs := %s |}",
 				def, hx.Nat(int(cd.MaxParams)), hx.Nat(int(cd.Depth)), hx.Bytes(method), hx.Bytes(host), hx.Bytes(fox.VerifStripHostPort(host)), hx.Bytes(path),
 				hx.Bool(matched), hx.Bool(matched && lo.Tsr), hx.Bytes(pat), hx.Bool(gp), hx.Bool(gt), hx.Bool(gs), hx.Bool(warmGrow), hx.N(allocs))
-			human := fmt.Sprintf("routes=%v ignoreTrailingSlash=%v request: %s Host=%q path=%q => matched=%v pattern=%q tsr=%v allocs/op=%d (after %d warm-up calls) cold-growth(params,tsrParams,skipNds)=(%v,%v,%v) caps=(%d,%d) warm-growth=%v",
-				fmtEntries(ok), rs.ignoreTS, method, host, path, matched, pat, lo.Tsr, allocs, warmup, gp, gt, gs, cd.MaxParams, cd.Depth, warmGrow)
+			human := fmt.Sprintf("routes=%v ignoreTrailingSlash=%v request: %s Host=%q path=%q => matched=%v pattern=%q tsr=%v allocs/op=%d (after %d warm-up calls) cold-growth(params,tsrParams,skipNds)=(%v,%v,%v) caps=(%d,%d) warm-growth=%v%s",
+				fmtEntries(ok), rs.ignoreTS, method, host, path, matched, pat, lo.Tsr, allocs, warmup, gp, gt, gs, cd.MaxParams, cd.Depth, warmGrow, inter)
 			cs.AddWithDef(def, tree, term, human)
 			st.Count("set:" + rs.kind)
 			st.Count("request:" + kind)
